@@ -68,6 +68,8 @@ func (r *EntityLocal) GetOrAddFeature(featureType model.FeatureTypeType, role mo
 		return f
 	}
 
+	verifYield("GetOrAddFeature.afterLookup")
+
 	r.mux.Lock()
 	defer r.mux.Unlock()
 
@@ -163,6 +165,8 @@ func (r *EntityLocal) AddUseCaseSupport(
 		Entity: r.address.Entity,
 	}
 
+	verifYield("UseCase.afterCopy")
+
 	data.AddUseCaseSupport(address, actor, useCaseName, useCaseVersion, useCaseDocumemtSubRevision, useCaseAvailable, scenarios)
 
 	nodeMgmt.SetData(model.FunctionTypeNodeManagementUseCaseData, data)
@@ -203,6 +207,8 @@ func (r *EntityLocal) SetUseCaseAvailability(
 		Entity: r.address.Entity,
 	}
 
+	verifYield("UseCase.afterCopy")
+
 	data.SetAvailability(address, actor, useCaseName, available)
 
 	nodeMgmt.SetData(model.FunctionTypeNodeManagementUseCaseData, data)
@@ -225,6 +231,8 @@ func (r *EntityLocal) RemoveUseCaseSupport(
 		Entity: r.address.Entity,
 	}
 
+	verifYield("UseCase.afterCopy")
+
 	data.RemoveUseCaseSupport(address, actor, useCaseName)
 
 	nodeMgmt.SetData(model.FunctionTypeNodeManagementUseCaseData, data)
@@ -243,6 +251,8 @@ func (r *EntityLocal) RemoveAllUseCaseSupports() {
 		Device: r.address.Device,
 		Entity: r.address.Entity,
 	}
+
+	verifYield("UseCase.afterCopy")
 
 	data.RemoveUseCaseDataForAddress(address)
 
